@@ -98,24 +98,46 @@ def make_half_voronoi(Vm, N, G, full_stub):
     return h
 
 
+def _t_text(n_t):
+    return "[" + ", ".join(str(round(0.1 * (k + 1) + 0.03 * k * k, 3)) for k in range(n_t)) + "]"
+
+
+def make_positiongrid(F, TR, dirstub, radii_arr, cartesian=False):
+    """a real PositionGrid built by its REAL __init__ (so that whatever it initialises exists), with the direction-grid factory
+    replaced by one that hands out the stub and the radii replaced by `radii_arr` after the (real) parse of a placeholder text"""
+    from harness.common import bound
+
+    class F3:
+        @staticmethod
+        def create(alg_name=None, N=None, **k):
+            return dirstub
+    with bound(F, SphereGrid3DFactory=F3):
+        pg = F.PositionGrid(o_grid_name=str(dirstub.get_N()), t_grid_name=_t_text(len(radii_arr)), position_grid_cartesian=cartesian)
+    pg.t_grid.trans_grid = radii_arr
+    return pg
+
+
 def make_fullgrid(F, TR, Vm, n_b, dirstub, radii_arr, factor, G=None, full_stub=None, cartesian=False):
-    """a real FullGrid whose collaborators below the Python assembly are stubs"""
-    fg = object.__new__(F.FullGrid)
-    fg.factor = factor
+    """a real FullGrid built by its REAL __init__ (FullGrid.__init__ -> PositionGrid.__init__, name and translation parsers run);
+    only the two sphere-grid factories are replaced: they hand out the direction stub and the rotation stub object"""
+    from harness.common import bound
     if n_b == 1:
         vor = Vm.MikroVoronoi(dimensions=4, N_points=1)
         G = np.array([[0.0, 0.0, 0.0, 1.0]])
     else:
-        vor = make_half_voronoi(Vm, n_b, G, full_stub)
-    fg.b_rotations = BRot(n_b, G, vor)
-    pg = object.__new__(F.PositionGrid)
-    pg.o_rotations = dirstub
-    pg.o_positions = dirstub.get_grid_as_array()
-    pg.position_grid_cartesian = cartesian
-    tg = object.__new__(TR.TranslationParser)
-    tg.trans_grid = radii_arr
-    tg.user_input = "<symbolic>"
-    pg.t_grid = tg
-    fg.position_grid = pg
-    fg.b_grid_name, fg.o_grid_name, fg.t_grid_name = "stubQ", "stubO", "<symbolic>"
+        vor = make_half_voronoi(Vm, n_b, G, full_stub) if full_stub is not None else None
+    brot = BRot(n_b, G, vor)
+
+    class F4:
+        @staticmethod
+        def create(alg_name=None, N=None, **k):
+            return brot
+
+    class F3:
+        @staticmethod
+        def create(alg_name=None, N=None, **k):
+            return dirstub
+    with bound(F, SphereGrid4DFactory=F4, SphereGrid3DFactory=F3):
+        fg = F.FullGrid(str(n_b), str(dirstub.get_N()), _t_text(len(radii_arr)), factor=factor, position_grid_cartesian=cartesian)
+    fg.position_grid.t_grid.trans_grid = radii_arr
     return fg
